@@ -357,6 +357,13 @@ func runC06(r *simkit.Run) {
 			if w.fl == flService && !noExtra && len(signers) == 0 && len(sigs) == 0 {
 				sigOK = true // the documented empty case
 			}
+			// structural rule of every flavour: identities non-decreasing (a shortened copy of a
+			// repeated identity sorts in front of its twin)
+			for i := 1; i < len(fids); i++ {
+				if bytes.Compare(fids[i-1], fids[i]) > 0 {
+					sigOK = false
+				}
+			}
 		}
 		data, err := p2pmsg.Marshal(km, nil)
 		if err != nil {
